@@ -274,6 +274,95 @@ def copyRoute (h : Heap) (pre : List (Nat × PreTarget)) (root : Val) : Except E
   | .error e => .error e
   | .ok s0 => cpVal (2 * h.size + 1) s0 root
 
+/-! ### the shallow routes (`copy.copy(x)`, `x.clone(0)`, `TaxonNamespace(ns)`)
+
+`Tree.__copy__` is the namespace-scoped deep copy (`copyRoute`); `Node`, `Edge`, `Taxon`, `CharacterType`, `DataSet` refuse
+(`TypeError` / `NotImplementedError`: checked by the harness); `TreeList.__copy__` and `CharacterMatrix.__copy__` build a new
+container around the SAME members and deep-copy the annotations; `TaxonNamespace.__copy__` = `TaxonNamespace(self)` is a memo-driven
+copy with the namespace, its `_taxa` list and every taxon pre-seeded. -/
+
+/-- `TreeList.__copy__` / `CharacterMatrix.__copy__`.  `b` is the instance the route has just constructed with
+`cls(label=self.label, taxon_namespace=self.taxon_namespace)` (exported by the harness from the same constructor call; its
+attribute values — the namespace, the label, a new empty `comments` list … — become the attributes of the copy); `mem` is the member
+container attribute (`_trees`: `other._trees = list(self._trees)`; `_taxon_sequence_map`: filled key by key in the source's order):
+the copy gets a NEW container holding the SAME member references in the same order.  Then `memo = {id(self): other}` and
+`other.deep_copy_annotations_from(self, memo)`: the annotations are deep copies made through `cpItems` (bound ones re-targeted to
+the copy), attached last.  Allocation order: the new object, its member container, then whatever the annotations allocate. -/
+def shallowMembers (h : Heap) (src b : Nat) (mem : String) : Except Err (St × Val) :=
+  match h[src]?, h[b]? with
+  | some o, some ob =>
+    match o.get mem with
+    | some (.ref l) =>
+      match h[l]? with
+      | none => .error .dangling
+      | some lo =>
+        let j := h.size
+        let h1 := h.push { ob with fields := setFieldL mem (.ref (j + 1)) ob.fields }
+        let s0 : St := ⟨h1.push lo, [(src, j)]⟩
+        match annotationsRef o with
+        | none => .ok (s0, .ref j)
+        | some a =>
+          match s0.h[a]?, itemFields s0.h a with
+          | some ao, some items =>
+            match cpItems (2 * h.size + 1) s0 src j (items.map Prod.snd) with
+            | .error e => .error e
+            | .ok (s4, items') => .ok (attachAnnotations s4 a ao.cls j items', .ref j)
+          | _, _ => .error .malformed
+    | _ => .error .malformed
+  | _, _ => .error .dangling
+
+/-- the values of the items of a container object -/
+def itemVals (o : Obj) : List Val := o.fields.map Prod.snd
+
+/-- `memo[id(t2)] = t1` for the members: every taxon of the source is its own image -/
+def seedSelf : List Val → Memo
+  | [] => []
+  | .ref t :: r => (t, t) :: seedSelf r
+  | .atom _ :: r => seedSelf r
+
+/-- `TaxonNamespace(other)` (= `copy.copy(ns)` = `ns.clone(0)`): the new namespace takes the SAME `Taxon` objects in the same order
+(`add_taxon` into its own new `_taxa` list), `memo = {id(other): self, id(other._taxa): self._taxa, id(t): t …}`, then every other
+attribute is `copy.deepcopy(other.__dict__[k], memo)` (the accession maps are rebuilt around the same taxa) and the annotations are
+deep-copied.  (The constructor's own `__dict__` order — `comments` first — is not modelled: `_taxa` is put first as in
+`planFields`.) -/
+def shallowNs (h : Heap) (src : Nat) : Except Err (St × Val) :=
+  match h[src]? with
+  | none => .error .dangling
+  | some o =>
+    match o.kind, o.get "_taxa" with
+    | .namespace, some (.ref l) =>
+      match h[l]? with
+      | none => .error .dangling
+      | some lo =>
+        let j := h.size
+        let h1 := (h.push { o with fields := [] }).push lo
+        let s0 : St := ⟨h1, (src, j) :: (l, j + 1) :: seedSelf (itemVals lo)⟩
+        match cpFields (2 * h.size + 1) s0 (planFields o) with
+        | .error e => .error e
+        | .ok (s2, fs') =>
+          let s3 : St := ⟨setFields s2.h j fs', s2.m⟩
+          match annotationsRef o with
+          | none => .ok (s3, .ref j)
+          | some a =>
+            match s3.h[a]?, itemFields s3.h a with
+            | some ao, some items =>
+              match cpItems (2 * h.size + 1) s3 src j (items.map Prod.snd) with
+              | .error e => .error e
+              | .ok (s4, items') => .ok (attachAnnotations s4 a ao.cls j items', .ref j)
+            | _, _ => .error .malformed
+    | _, _ => .error .malformed
+
+/-- `clone(depth)` of `basemodel.DataObject`: which route a depth selects (anything else: `TypeError`) -/
+inductive Depth where
+  | shallow | scoped | deep
+deriving DecidableEq, Repr
+
+def cloneDepth : Nat → Option Depth
+  | 0 => some .shallow
+  | 1 => some .scoped
+  | 2 => some .deep
+  | _ => none
+
 /-! ### `Node.extract_subtree` without a node filter (thin structural clone) -/
 
 /-- what a clone carries: taxon (by reference; shown by label), edge length, node label, edge label -/
